@@ -61,7 +61,10 @@ var fieldValues = map[string][]string{
 	// x-gzip / x-compress aliases, whatever a cache makes of q-values) and a few weighted ones
 	"Accept-Encoding": {"gzip, br", "br, gzip", "br,gzip", "gzip", "x-gzip, br", "xx-gzip", "xgzip", "gzip;q=0.5, br", "br, gzip;q=0.5", "identity"},
 	"Te":              {"trailers, gzip", "gzip, trailers", "gzip,trailers", "trailers", "x-gzip, trailers"},
-	"Accept":          {"text/html, application/json", "application/json, text/html", "text/html", "text/html;q=0.9, */*;q=0.1"},
+	"Accept": {"text/html, application/json", "application/json, text/html", "text/html", "text/html;q=0.9, */*;q=0.1",
+		// media-type parameters belong to the member: these are four different requests (and the last two are one)
+		"text/plain;charset=utf-8, text/plain", "text/plain;charset=utf-8", "text/plain", "application/json;version=1, application/json;version=2",
+		"application/json;version=1", "text/x;a=1;b=2", "text/x;b=2;a=1"},
 }
 
 var varyConfigs = []string{"", "X-A", "X-A, X-B", "X-B, X-A", "x-a", "*", "X-A, *", "Content-Language", "User-Agent", "Authorization",
